@@ -311,9 +311,21 @@ package keeper
 //@   assigns \nothing
 
 //@ func (HostValidatorStore) UpdateValidators
+//@   let vs := valsetValidators(validatorSet)
+//@   let replaced := (old(g.lastHeight) == None && height > 0) || (old(g.lastHeight) != None && val(old(g.lastHeight)) < height)
 //@   ensures old(g.lastHeight) == None && height <= 0 ==> err == nil && g.validators == old(g.validators) && g.lastHeight == old(g.lastHeight)               // C15: non_positive_height_ignored
 //@   ensures old(g.lastHeight) != None && val(old(g.lastHeight)) >= height ==> err == nil && g.validators == old(g.validators) && g.lastHeight == old(g.lastHeight)   // C15: only_replaced_by_higher_height
-//@   ensures err == nil && ((old(g.lastHeight) == None && height > 0) || (old(g.lastHeight) != None && val(old(g.lastHeight)) < height)) ==> g.lastHeight == Some(height)                                    // C15: records_the_new_height
+//@   ensures err == nil && replaced ==> g.lastHeight == Some(height)                                                                                      // C15: records_the_new_height
+//   hvKey(j) / hvRec(j): the key and the record written by iteration j of the loop over the delivered set
+//@   ensures err == nil && replaced ==> forall k bytes :: g.validators[k] != None ==> (exists j int :: 0 <= j && j < len(vs) && k == hvKey(j))   // C15: set_is_replaced_not_merged
+//@   ensures err == nil && replaced ==> forall j int :: 0 <= j && j < len(vs) ==> g.validators[hvKey(j)] != None                    // C15: every_delivered_validator_recorded
+//@   loop 0 ghost hvKey bytes := stakingConsAddr(validator)
+//@   loop 0 invariant 0 <= $i
+//@   loop 0 invariant $i <= len(vs)
+//@   loop 0 invariant g.lastHeight == old(g.lastHeight)
+//@   loop 0 invariant forall k bytes :: g.validators[k] != None ==> (exists j int :: 0 <= j && j < $i && k == hvKey(j))
+//@   loop 0 invariant forall j int :: 0 <= j && j < $i ==> g.validators[hvKey(j)] != None
+//@   loop 0 step g.validators == prev(g.validators)[stakingConsAddr(validator) := Some(validator)]                                                        // C15: one_record_per_delivered_validator_under_its_consensus_address
 //@   assigns validators, lastHeight
 
 //@ func (Keeper) UpdateHostValidatorSet
